@@ -151,20 +151,12 @@ Theorem C03_ether_set_payload_rt : forall b ht src dst pl,
 Proof. exact ether_set_payload_rt. Qed.
 Print Assumptions C03_ether_set_payload_rt.
 
-(* AppendPayload pads to the 60-byte minimum frame with zeros (pad46).  The real code slices
-   with cap(payload): the full statement is refuted; it holds outside that class. *)
-Theorem C03_ether_append_refuted :
-  exists b ht src dst (pl : bytes) pcap,
-    (14 + length pl <= cap b)%nat /\ (60 <= cap b)%nat /\ (length pl <= pcap)%nat /\ hlen_of_type ht = 14%nat /\
-    known_C03_ether_append_cap b ht pl pcap = true /\
-    (e <- encode_ether b ht src dst ;; ether_append e pl pcap)%res = Panic.
-Proof. exact ether_append_cap_refuted. Qed.
-Print Assumptions C03_ether_append_refuted.
-
-Theorem C03_ether_append_rt_partial : forall b ht src dst pl pcap,
+(* AppendPayload pads to the 60-byte minimum frame with zeros (pad46).  The former panic class
+   (payload slice with spare capacity, finding ether-append-payload-cap) was repaired by repo
+   commit 564095a: the statement now holds for every capacity of the caller's payload slice. *)
+Theorem C03_ether_append_rt : forall b ht src dst pl pcap,
   (14 + length pl <= cap b)%nat -> (60 <= cap b)%nat -> length src = 6%nat -> length dst = 6%nat ->
-  ht < 65536 -> hlen_of_type ht = 14%nat -> (length pl <= pcap)%nat ->
-  known_C03_ether_append_cap b ht pl pcap = false ->
+  ht < 65536 -> hlen_of_type ht = 14%nat ->
   exists e r,
     encode_ether b ht src dst = Ok e /\ ether_append e pl pcap = Ok r /\
     len r = Nat.max 60 (14 + length pl) /\ cap r = cap b /\
@@ -172,8 +164,14 @@ Theorem C03_ether_append_rt_partial : forall b ht src dst pl pcap,
     ether_hlen r = Ok 14%nat /\
     (w <- ether_payload r ;; Ok (view w))%res = Ok (pad46 pl) /\
     ref_ether (view r) = Some {| re_dst := dst; re_src := src; re_type := ht; re_payload := pad46 pl |}.
-Proof. exact ether_append_rt_partial. Qed.
-Print Assumptions C03_ether_append_rt_partial.
+Proof. exact ether_append_rt. Qed.
+Print Assumptions C03_ether_append_rt.
+
+Example C03_ether_append_spare_cap_ex :
+  exists r, (e <- encode_ether (mkSlice (repeat 7 64) 64) 2048 [2;0;0;0;0;1] [2;0;0;0;0;2] ;;
+             ether_append e [1;2;3] 4096)%res = Ok r /\ len r = 60%nat.
+Proof. exact ether_append_spare_cap_ex. Qed.
+Print Assumptions C03_ether_append_spare_cap_ex.
 
 (* ---------------------------------------------------------------- *)
 (* ARP *)
@@ -234,27 +232,29 @@ Theorem C03_na_rt : forall ro so ov tip tmac,
 Proof. exact na_rt. Qed.
 Print Assumptions C03_na_rt.
 
-(* NDP neighbour solicitation: the marshal function writes option type 2 (finding
-   ns-marshal-option-type): the source link-layer address is lost by both decoders. *)
-Theorem C03_ns_rt_refuted :
-  exists tip slla, length tip = 16%nat /\ length slla = 6%nat /\ bytes_ok tip /\ bytes_ok slla /\
-    known_C03_ns_option_type tip slla = true /\
-    exists r, ns_marshal tip slla = Ok r /\
-      (v <- ns_decode_lib r ;; Ok (sv_lla v))%res = Ok None /\
-      (match ref_nd (view r) with Some m => ref_ns_slla m | None => None end) = None.
-Proof. exact ns_rt_refuted. Qed.
-Print Assumptions C03_ns_rt_refuted.
-
-Theorem C03_ns_rt_partial : forall tip slla,
+(* NDP neighbour solicitation.  The marshal function wrote option type 2 (finding
+   ns-marshal-option-type, DESIGN #11); repaired by repo commit 6b9f9d7, the model follows and the
+   full round trip holds: the source link-layer address is read back by SourceLLA() and found as
+   option 1 by the RFC 4861 reference decoder. *)
+Theorem C03_ns_rt : forall tip slla,
   length tip = 16%nat -> length slla = 6%nat -> bytes_ok tip -> bytes_ok slla ->
   exists r,
-    ns_marshal tip slla = Ok r /\ len r = 32%nat /\
-    view r = ns_bytes NS_OPT_TYPE tip slla /\
-    (v <- ns_decode_lib r ;; Ok (sv_type v, sv_code v, sv_target v))%res = Ok (135, 0, tip) /\
+    ns_marshal tip slla = Ok r /\ len r = 32%nat /\ cap r = 32%nat /\
+    view r = ns_bytes 1 tip slla /\ bytes_ok (view r) /\
+    ns_decode_lib r = Ok {| sv_type := 135; sv_code := 0; sv_target := tip; sv_lla := Some slla |} /\
     ref_nd (view r) = Some {| rn_type := 135; rn_code := 0; rn_flags := 0; rn_target := tip;
-                              rn_options := [(NS_OPT_TYPE, slla)] |}.
-Proof. exact ns_rt_partial. Qed.
-Print Assumptions C03_ns_rt_partial.
+                              rn_options := [(1, slla)] |} /\
+    (forall m, ref_nd (view r) = Some m -> ref_ns_slla m = Some slla).
+Proof. exact ns_rt. Qed.
+Print Assumptions C03_ns_rt.
+
+(* the defect that was repaired, kept as a statement about the parametrised marshal function *)
+Theorem C03_ns_type2_loses_lla :
+  exists tip slla r, ns_marshal_ty 2 tip slla = Ok r /\
+      (v <- ns_decode_lib r ;; Ok (sv_lla v))%res = Ok None /\
+      (match ref_nd (view r) with Some m => ref_ns_slla m | None => None end) = None.
+Proof. exact ns_type2_loses_lla. Qed.
+Print Assumptions C03_ns_type2_loses_lla.
 
 (* ---------------------------------------------------------------- *)
 (* The frame composed the way the library's senders do it (EncodeEther, EncodeIP4 in
